@@ -33,6 +33,62 @@ CHECKS = {
         design_ref='DESIGN.md 3 C03',
         note=TRUST + 'as C01.',
         technique='TLA+ model checking (TLC) + trace validation of the real BiddingPhase against Auction!Step'),
+    'C04': dict(
+        category='model_checking',
+        text='TLC proves the code-shaped Play model (strict-< scan over trumps then over the suit led, leader advanced by '
+             'index, bookkeeping in the code\'s order) equal to the law-shaped PlayLaw oracle in every reachable state of '
+             'reduced packs (every deal, trump, declarer and play order, revokes included) and on the complete winner table '
+             'of a 16-card pack; the real PlayingPhase classes are bound by TLC-generated behaviours (reduced packs '
+             'exhaustively, 52-card boards by simulation), seeded boards and the winner table, every call validated by '
+             'PlayTrace with the full projected state.',
+        design_ref='DESIGN.md 3 C04',
+        note=TRUST + 'the private list of the current trick is not read (checked through its effects).',
+        technique='TLA+ model checking (TLC) + trace validation of the real PlayingPhase classes against Play!PStep / PlayLaw'),
+    'C05': dict(
+        category='model_checking',
+        text='HandsAreLaw / Conservation / AcceptedIffLaw (every seat x card offered in every state) on the reduced-pack '
+             'models; on the real objects out-of-turn plays, cards of another seat and cards already played are injected at '
+             'every position of full boards, and TLC rejects any accepted-but-illegal play and any refused play that '
+             'changed the projected state.',
+        design_ref='DESIGN.md 3 C05',
+        note=TRUST + 'as C04.',
+        technique='TLA+ model checking (TLC) + trace validation with injected refused plays'),
+    'C06': dict(
+        category='model_checking',
+        text='PlayableIsLaw in every reachable state of the reduced-pack models and for all hands x leads of a 12-card '
+             'pack (spec); the real available_cards / current_available_cards* / RandomPlay are called on the same table, on '
+             'full-size hands of every size x every led card and in every state of the driven boards, and TLC validates '
+             'each answer against LawPlayable.',
+        design_ref='DESIGN.md 3 C06',
+        note=TRUST + 'RandomPlay is sampled (seeded), not enumerated.',
+        technique='TLA+ model checking (TLC) + trace validation of the playable-set queries'),
+    'C07': dict(
+        category='model_checking',
+        text='Score!Duplicate is written from Law 77 by formula; TLC checks sanity laws on the complete domain; the real '
+             'calc_score and calc_bid_score are evaluated on the COMPLETE finite domain (35 x 4 flag combinations x 4 '
+             'vulnerabilities x 4 declarers x 14, plus passed-out contracts), in two orders in one process, and TLC '
+             'validates every value.',
+        design_ref='DESIGN.md 3 C07',
+        note=TRUST + 'the oracle formula (anchored by 16 well-known scores).',
+        technique='TLA+ oracle (TLC) + complete-domain trace validation of calc_score'),
+    'C11': dict(
+        category='model_checking',
+        text='In process: product of one manager and four observers explored by TLC on reduced packs (ReplicasAgree, '
+             'ReplicasAccept, ReplicaHands); the six real objects are driven together on TLC-generated and seeded boards '
+             'and TLC validates each object against its model and their agreement after every play. The network part '
+             '(bundled clients over the protocol) is under construction.',
+        design_ref='DESIGN.md 3 C11',
+        note=TRUST + 'network half not yet covered.',
+        technique='TLA+ model checking (TLC) of the replica product + multi-object trace validation'),
+    'C16': dict(
+        category='model_checking',
+        text='TLAPS proves for ALL integers that the specification-level IMP function is odd, monotone, within -24..24 and '
+             'saturated from 4000 up; TLC checks it equals the declarative scale on -6000..6000; the real functions are '
+             'evaluated on every integer of the range where the scale varies, on wide and beyond-64-bit magnitudes and on '
+             'two-score pairs around every threshold, all validated by TLC.',
+        design_ref='DESIGN.md 3 C16',
+        note='tlapm + SMT; TLC; beyond the enumerated range the code is sampled.',
+        technique='TLAPS proof of the scale + TLC trace validation of point_difference_to_imps / score_to_imp'),
 }
 
 NOT_YET = {}
